@@ -110,8 +110,8 @@ class CtxValue(tuple):
     defs = ()
 
 
-def _ctx(ex, st, s1, s2, window, penalty, max_step, psi_1b, psi_2b, metric):
-    raw = make_ctx(ex, st, s1, s2, window, penalty, max_step, psi_1b, psi_2b, metric)
+def _ctx(ex, st, s1, s2, window, penalty, max_step, psi_1b, psi_2b, metric, ndim=0):
+    raw = make_ctx(ex, st, s1, s2, window, penalty, max_step, psi_1b, psi_2b, metric, ndim)
     names = ['a1', 'o1', 'r', 'a2', 'o2', 'c', 'w', 'pen', 'mstep', 'p1b', 'p2b', 'metric', 'nd']
     out, defs = [], []
     for n, t in zip(names, raw):
@@ -328,3 +328,14 @@ induction_lemma(
     patterns=lambda k: [FoldMinf(*_ctxc, _acc, _row, _lo, k)],
     doc='scanning a row with `if (cell < acc) acc = cell` yields min(row minimum, initial accumulator)',
     axioms=foldmin_axioms() + wrowmin_axioms() + order_axioms(), props=('C02',))
+
+
+def _ndim_of(ex, st, s):
+    """number of values per point of a series object (0: univariate)"""
+    if isinstance(s, (Ref, Ptr)) and s.oid is not None:
+        o = st.heap[s.oid]
+        return getattr(o, 'nd', 0)
+    return 0
+
+
+spec('NdimOf', z3=_ndim_of, py=lambda ex, st, s: 0)
